@@ -71,6 +71,8 @@ def _resolve_type(type_: Any, memo: TypeCheckMemo) -> Any:
         return type_  # the arguments are values, not types: `Literal["a"]` is not a forward reference
     if origin:
         args = get_args(type_)
+        if not args:
+            return type_  # a bare alias such as `typing.Callable`: nothing to resolve
         if origin is Annotated:
             # Only the first argument is a type; a string among the metadata is data
             # (e.g. a unit or a description), not a forward reference.
